@@ -103,7 +103,12 @@ class FindByGlob(Finder):
         :return:
         """
         # index is coherent in all search_sids, which is a bit strange
-        index = str(search_sids[0]).split("/").index(">")
+        # (the first search may have lost its ">", if a query or the narrowing replaced it)
+        indices = [str(ssid).split("/").index(">") for ssid in search_sids if ">" in str(ssid).split("/")]
+        if not indices:
+            yield from self.star_search(search_sids, as_sid=as_sid)
+            return
+        index = indices[0]
 
         """
         indices = []
